@@ -96,7 +96,7 @@ var c07S = c07Stages()
 
 // records: label sets subset of {a=1,b=2,c=x} x lines with/without ANSI sequences
 func c07Records() []mockq.Rec {
-	lines := []string{"l", "", "\x1b[31mred\x1b[0m", "\x1b[1;32mg", "[31m plain", "\x1b", "pre\x1b[0mpost\x1b[38;5;12mx", "\u009b1;31mred\u009b0m plain"}
+	lines := []string{"l", "", "\x1b[31mred\x1b[0m", "\x1b[1;32mg", "[31m plain", "\x1b", "pre\x1b[0mpost\x1b[38;5;12mx", "\u009b1;31mred\u009b0m plain", "\x1b[38;2;10;20;30mtrue colour\x1b[0m \x1b[1;4;31;42;5;7mmany\x1b[m"}
 	var out []mockq.Rec
 	ts := int64(0)
 	for mask := 0; mask < 8; mask++ {
@@ -115,6 +115,13 @@ func c07Records() []mockq.Rec {
 			out = append(out, mockq.Rec{TS: ts * sec, Line: l, Labels: labels})
 		}
 	}
+	// one record with more labels than any small-set threshold (17 extra labels next to a, b, c)
+	wide := []mockq.KV{{K: "a", V: "1"}, {K: "b", V: "2"}, {K: "c", V: "x"}}
+	for k := 0; k < 17; k++ {
+		wide = append(wide, mockq.KV{K: fmt.Sprintf("w%02d", k), V: fmt.Sprintf("v%d", k)})
+	}
+	ts++
+	out = append(out, mockq.Rec{TS: ts * sec, Line: "l", Labels: wide})
 	return out
 }
 
@@ -286,7 +293,7 @@ func c07Run(r *vkit.Run) {
 			}
 		}
 	}
-	r.Note("bounds", fmt.Sprintf("%d records (all 8 subsets of {a=1,b=2,c=x} x 8 lines with SGR sequences (ESC [ and U+009B introducers), lone ESC, bracket text without ESC) x all single stages, ordered pairs and triples (quick: a third of the triples) over %d stages: label_format renames/templates (incl. missing source, failing template, overwriting), line_format (labels, __line__, __timestamp__, failing, missing label), drop/keep with names and =,!=,=~,!~ matchers, decolorize; all single stages and ordered pairs again after | json over 8 JSON lines whose a, b, c are numbers, booleans and strings", len(c07Data), len(c07S)))
+	r.Note("bounds", fmt.Sprintf("%d records (a 20-label record and all 8 subsets of {a=1,b=2,c=x} x 9 lines with SGR sequences (up to six parameters) (ESC [ and U+009B introducers), lone ESC, bracket text without ESC) x all single stages, ordered pairs and triples (quick: a third of the triples) over %d stages: label_format renames/templates (incl. missing source, failing template, overwriting), line_format (labels, __line__, __timestamp__, failing, missing label), drop/keep with names and =,!=,=~,!~ matchers, decolorize; all single stages and ordered pairs again after | json over 8 JSON lines whose a, b, c are numbers, booleans and strings", len(c07Data), len(c07S)))
 }
 
 func c07Replay(r *vkit.Run, v vkit.Violation) *vkit.Violation {
